@@ -1776,6 +1776,14 @@ impl DhtNetworkManager {
         peer_id: &PeerId,
         operation: DhtNetworkOperation,
     ) -> Result<DhtNetworkResult> {
+        // Nothing is sent once the manager has been stopped: operations still in flight
+        // when stop() returns end with this error instead of issuing further requests.
+        if self.shutdown.is_cancelled() {
+            return Err(P2PError::Network(NetworkError::ProtocolError(
+                "DHT network manager is stopped".into(),
+            )));
+        }
+
         // Sweep stale entries left by dropped futures before adding a new one
         self.sweep_expired_operations();
 
@@ -1895,6 +1903,11 @@ impl DhtNetworkManager {
     async fn dial_candidate(&self, peer_id: &PeerId, address: &str) {
         if address.is_empty() {
             debug!("dial_candidate: peer {peer_id} missing address");
+            return;
+        }
+
+        if self.shutdown.is_cancelled() {
+            debug!("dial_candidate: manager stopped, not dialling {peer_id}");
             return;
         }
 
